@@ -63,7 +63,7 @@ def gen_field(rng, syntax, files):
     """-> (rendered value text after 'Key:', canonical expected)"""
     fold = rng.random() < 0.5
     if syntax == "scalar":
-        v = rng.choice([b"3.0 (quilt)", b"foo", b"A B <a@b.c>", b"https://example.org/x?y=1", b"optional", b"1.0", b"misc"])
+        v = rng.choice([b"3.0 (quilt)", b"foo", b"A B <a@b.c>", b"https://example.org/x?y=1", b"optional", b"1.0", b"misc", b"hello-src (1.0-1)", b"libfoo (2:1.0~rc1-3+b1)"])
         return b" " + v, hx(v)
     if syntax == "text":
         lines = [rng.choice([b"short summary", b" * item one", b" .", b"  deeper", b"word"]) for _ in range(rng.randrange(1, 5))]
@@ -444,7 +444,8 @@ def check_access(chk, kind, text, exp, facts, a):
             want[GETTER[f]] = facts["ondemand"][f]
     elif kind == "deb_control":
         src = bytes.fromhex(exp["Source"][1:]); pkg = bytes.fromhex(exp["Package"][1:])
-        want["SourceName"] = hx(src if src else pkg)
+        # the source-package NAME: "Source: name (version)" when source and binary versions differ (every binNMU) - the first word
+        want["SourceName"] = hx(src.split()[0] if src.split() else (src if src else pkg))
     for k, v in want.items():
         if got.get(k) != v:
             chk.violate({"kind": "property", "case": lib.show_case(case), "accessor": k, "impl_value": str(got.get(k))[:500], "expected": v[:500],
